@@ -356,7 +356,7 @@ def run(tier, seed):
     ops = alphabet(seed)
     depth = {"ih5": 7 if q else 9, "mf": 6 if q else 8}
     cfg = {"ops": ops, "max_containers": 3 if q else 4}
-    budget = 150 if q else 1500
+    budget = 600 if q else 1500
     t0 = time.time()
     violations = []
     fam = {}
